@@ -497,7 +497,7 @@ def frame(payload):
     return MAGIC + struct.pack(">I", len(payload)) + payload
 
 
-def parse_stream(b):
+def parse_stream(b, limit=None):
     """-> (payloads delivered, refusal) where refusal = None | ('magic'|'length', offset of the byte that completes the
     offending 4-byte field) ; a trailing partial frame is simply pending"""
     out, pos = [], 0
@@ -509,7 +509,7 @@ def parse_stream(b):
         if len(b) - pos < 8:
             return out, None
         n = struct.unpack(">I", b[pos + 4:pos + 8])[0]
-        if n > MAX_MESSAGE_SIZE:
+        if n > (MAX_MESSAGE_SIZE if limit is None else limit):
             return out, ("length", pos + 7)
         if len(b) - pos - 8 < n:
             return out, None
